@@ -223,17 +223,33 @@ impl<K, V, A: Allocator> CaoHashMap<K, V, A> {
             if std::mem::needs_drop::<V>() {
                 std::ptr::drop_in_place(values.add(i));
             }
-        } else {
-            self.hashes_mut()[i] = h;
-            self.count += 1;
+            std::ptr::write(keys.add(i), key);
+            std::ptr::write(values.add(i), value);
+            return Ok(());
         }
-        std::ptr::write(keys.add(i), key);
-        std::ptr::write(values.add(i), value);
-        // delaying grow so that no grow is triggered if the key overrides an existing value
-        if Self::needs_grow(self.count, self.capacity) {
+        // no grow is triggered if the key overrides an existing value.
+        // grow before storing the new key, so a failed allocation leaves the map unchanged and
+        // there is always an empty bucket to terminate the probing
+        if Self::needs_grow(self.count + 1, self.capacity) {
             self.grow()?;
         }
+        self.insert_new_unchecked(h, key, value);
         Ok(())
+    }
+
+    /// # Safety
+    /// Caller must ensure that the hash is correct for the key, that the key is not in the map
+    /// and that there is room for it
+    unsafe fn insert_new_unchecked(&mut self, h: u64, key: K, value: V)
+    where
+        K: Eq,
+    {
+        let i = self.find_ind(h, &key);
+        debug_assert_eq!(self.hashes()[i], 0);
+        self.hashes_mut()[i] = h;
+        self.count += 1;
+        std::ptr::write(self.keys.as_ptr().add(i), key);
+        std::ptr::write(self.values.as_ptr().add(i), value);
     }
 
     fn needs_grow(count: usize, capacity: usize) -> bool {
@@ -251,7 +267,11 @@ impl<K, V, A: Allocator> CaoHashMap<K, V, A> {
     where
         K: Eq,
     {
-        let new_cap = (self.capacity.max(2) * 3) / 2;
+        let mut new_cap = (self.capacity.max(2) * 3) / 2;
+        // small capacities may still be over the max load after a single step
+        while Self::needs_grow(self.count + 1, new_cap) {
+            new_cap = (new_cap * 3) / 2;
+        }
         debug_assert!(new_cap > self.capacity);
         unsafe { self.adjust_capacity(new_cap) }
     }
@@ -273,7 +293,7 @@ impl<K, V, A: Allocator> CaoHashMap<K, V, A> {
             if hash != 0 {
                 let key = std::ptr::read(keys.as_ptr().add(i));
                 let val = std::ptr::read(values.as_ptr().add(i));
-                self.insert_with_hint(hash, key, val)?;
+                self.insert_new_unchecked(hash, key, val);
             }
         }
 
